@@ -31,6 +31,7 @@ package fstxn
 //@ spec (*FsTxn).releaseInodes
 //@   assume
 //@   requires opInv(op)
+//@   requires [L2-clean] forall i uint64 :: held[i] ==> !dirtyinum[i] @C03 @C09 @C10
 //@   modifies held, map[uint64]*inode.Inode
 //@   ensures noLocks() && opShape(op)
 
@@ -39,8 +40,8 @@ package fstxn
 //@   requires opInv(op)
 //@   allocates buf.Buf
 //@   modifies cache.Cslot.Obj, dirtyinum
-//@   ensures forall i uint64 :: old(dirtyinum)[i] && !old(wroteinum)[i] ==> dirtyinum[i]
-//@   ensures forall i uint64 :: old(wroteinum)[i] || !old(dirtyinum)[i] ==> !dirtyinum[i]
+//@   ensures forall i uint64 :: held[i] && wroteinum[i] ==> !dirtyinum[i]
+//@   ensures forall i uint64 :: !(held[i] && wroteinum[i]) ==> dirtyinum[i] == old(dirtyinum)[i]
 
 // C03-L2: a lock is given up early only by the lookup that took it and found the inode unusable.
 //@ spec (*FsTxn).ReleaseInode
